@@ -126,3 +126,15 @@ Definition run_c01_vevok (s : sx) : sx :=
     end
   | _ => bad_request
   end.
+
+(* [cards nodes Q Evars vev(var, given card, given state order)] -> 0 accepted | 3/4/5/6 = the ValueError the code raises *)
+Definition run_c01_reject (s : sx) : sx :=
+  match s with
+  | SL [scard; sn; sq; se; sv] =>
+    match sx_list (sx_pair sx_nat sx_nat) scard, sx_list sx_nat sn, sx_list sx_nat sq, sx_list sx_nat se,
+          sx_list (sx_triple sx_nat sx_nat (sx_list sx_nat)) sv with
+    | Some cl, Some ns, Some Q, Some E, Some vev => sx_ok (of_nat (query_rejects ns (card_of cl) Q E vev))
+    | _, _, _, _, _ => bad_request
+    end
+  | _ => bad_request
+  end.
